@@ -31,7 +31,7 @@ PROFILE = {
 }
 
 
-E2_PROFILE = {'weights': {'app': 14, 'down': 3, 'up': 3, 'reboot': 3, 'resize': 4, 'shave': 4, 'rmsrv': 2, 'srv': 2, 'restart': 2, 'repart': 1, 'dupstart': 3, 'cellrm': 2, 'cellev': 2, 'reparent': 1, 'cellbounce': 3}, 'force': ['resize', 'shave', 'dupstart', 'cellbounce'], 'units': [1, 1024, 131072, 1048576]}
+E2_PROFILE = {'weights': {'app': 14, 'down': 3, 'up': 3, 'reboot': 3, 'resize': 4, 'shave': 4, 'rmsrv': 2, 'srv': 2, 'restart': 2, 'repart': 1, 'dupstart': 3, 'cellrm': 2, 'cellev': 2, 'reparent': 1, 'cellbounce': 3, 'evburst': 2}, 'force': ['resize', 'shave', 'dupstart', 'cellbounce', 'evburst'], 'units': [1, 1024, 131072, 1048576]}
 
 
 @st.composite
@@ -139,8 +139,56 @@ def watch(sim, info, flags):
             flags['churn'] = True
 
 
+def records_at_quiescence(sim):
+    """E2, at event quiescence (every change delivered and processed, then a
+    cycle): the capacity that counts is the one the server's ZooKeeper
+    record declares *now* - a master that has seen every event and still
+    works with an older record oversubscribes the server as declared. Only
+    records whose current content was announced by an admin event
+    (masterapi.update_server_capacity) are judged."""
+    from treadmill import zknamespace as z
+    from treadmill import zkutils
+    from pbt import mastersim
+    for name, server in sorted(sim.servers().items()):
+        record = zkutils.get_default(sim.admin, z.path.server(name))
+        if not record or name not in sim.decl_servers:
+            continue
+        cap = mastersim.ref_vector(record)
+        if sim.announced.get(name) != cap:
+            # a record a node agent rewrote on its own (boot) is announced by
+            # a presence change only, which a master may legitimately miss
+            continue
+        placed = [0, 0, 0]
+        for aname in server.apps:
+            decl = sim.decl_apps.get(aname)
+            if decl is None:
+                break
+            placed = [p + d for p, d in zip(placed, decl['demand'])]
+        else:
+            sim.count('records_compared_at_quiescence')
+            for dim in range(3):
+                if placed[dim] > cap[dim]:
+                    raise Violation(
+                        'c01.record.oversubscribed',
+                        '%s dim %d: placed demand %s > capacity %s declared '
+                        'in its record (every event has been processed; the '
+                        'master loaded %s)' % (
+                            name, dim, placed[dim], cap[dim],
+                            sim.decl_servers[name]['cap']))
+                if float(server.free_capacity[dim]) != cap[dim] - placed[dim]:
+                    raise Violation(
+                        'c01.record.free',
+                        '%s dim %d: reports free %s, its record declares %s '
+                        'minus placed %s (every event has been processed; '
+                        'the master loaded %s)' % (
+                            name, dim, float(server.free_capacity[dim]),
+                            cap[dim], placed[dim],
+                            sim.decl_servers[name]['cap']))
+
+
 def execute(case, stats):
     if case.get('engine') == 'units':
         return execute_units(case, stats)
-    flags = _e1.run_case(case, stats, [oracles.c01], watch)
+    flags = _e1.run_case(case, stats, [oracles.c01], watch,
+                         quiescent_checks=[records_at_quiescence])
     return bool(flags.get('loaded') and flags.get('churn'))
